@@ -204,10 +204,14 @@ class PreemptibleResource(Entity):
             return future
 
         # Try preemption
+        freed = 0
         if preempt:
-            self._try_preempt(amount, priority)
+            freed = self._try_preempt(amount, priority)
             if self._available >= amount:
                 self._grant_immediate(future, amount, priority, on_preempt)
+                if freed:
+                    # Evicting a holder may free more than this request takes.
+                    self._wake_waiters()
                 return future
 
         # Must wait
@@ -221,6 +225,10 @@ class PreemptibleResource(Entity):
         )
         self._insert_counter += 1
         heapq.heappush(self._waiters, waiter)
+        if freed:
+            # Holders were evicted but this request still does not fit: whoever is
+            # now at the head of the queue may.
+            self._wake_waiters()
 
         logger.debug(
             "[%s] Queued acquire(%d, priority=%.1f), waiters=%d",
